@@ -1,12 +1,17 @@
 """C13 - collection and query functions agree with their reference model.
 
 For every function of queries.py / collections.py (+ unpack, memorize) generated
-pipelines `$.f(...).g(...)...` (<= 4 stages) are evaluated three ways on the same input:
-  real    engine(text).evaluate(data=...) of the yaql under test,
-  ref     the plain-Python transcription of the documented meaning (harness/seqref.py),
-  model   the compiled Lean model (Yaql.Model.Seq / SeqRun) the theorems are about.
-Oracle (failing input): real differs from ref (and the model does not side with real).
+pipelines `$.f(...).g(...)...` (<= 4 stages) - and programs that look at the operand of a persistent update again
+(`let(x => P) -> [$x.insert(..), $x]` ...) - are evaluated three ways on the same input:
+  real    the yaql under test: the SAME text through 2-3 members of an engine family (base engine, engine.copy(options),
+          engine(text, options)) whose options differ, in a context made by create_context(**flags) after a drawn history
+          of other create_context calls in a fresh process,
+  ref     the plain-Python transcription of the documented meaning (harness/seqref.py) under that member's options / flags,
+  model   the compiled Lean model (Yaql.Model.Seq / SeqRun) the theorems are about, under the same option record.
+Oracle (failing input): real differs - type-strictly - from ref (and the model does not side with real); the evaluation
+changed the host's document; a result handed out earlier changed afterwards.
 Mismatch (tie broken): model differs from real although ref agrees with real, or ref is the odd one."""
+import copy
 import json
 import multiprocessing
 import os
@@ -24,7 +29,8 @@ import srcobl
 from seqref import FD, OOD
 
 ID = 'C13'
-LEAN_MODULES = ['Yaql.Props.C13'] + srcobl.modules('C13')   # Props/SrcSeq, SrcStream, SrcRepeat: model = current source
+LEAN_MODULES = ['Yaql.Props.C13', 'Yaql.Props.C13Opts', 'Yaql.Props.C13Persist'] + \
+    srcobl.modules('C13')   # Props/SrcSeq, SrcStream, SrcRepeat: model = current source
 REQUIRED_THEOREMS = ['Yaql.Props.C13.' + n for n in (
     'orderBy_perm orderBy_sorted orderBy_stable orderBy_stable_pair stable_sort_unique thenBy_lex cmpFields_append '
     'descending_reverse_of_keys orderBy_sorted_int groupBy_partition groupBy_keys_distinct groupBy_group_content '
@@ -42,10 +48,20 @@ REQUIRED_THEOREMS = ['Yaql.Props.C13.' + n for n in (
     'select_map where_error_position takeWhile_error_position skipWhile_error_position select_never_truncates '
     'where_never_truncates select_congr_dup lam_where_eval lam_first_eval noLazy_of_hashable run_select_lazy run_where_lazy '
     'run_takeWhile_lazy run_skipWhile_lazy take_before_error take_past_error findM_error_position run_indexWhere_eager'
-).split()] + srcobl.theorems('C13')
+).split()] + ['Yaql.Props.C13Opts.' + n for n in (
+    'dict_iterable_iff dict_iterates_keys dict_not_iterable iterableDicts_only_dicts limitTo_length limitTo_prefix '
+    'limitTo_small limitTo_raises_iff limitSized_ok_iff finL_length finV_tuple finV_list finV_scalar finV_plain '
+    'finV_set_strict convertInput_frozen hashable_of_frozen convertInput_idem ofInput_raw_list ofInput_raw_dict '
+    'ofInput_converted_list finSetErrs_nil finalise_raw rawOut_val rawOut_lazy rawOut_lazy_unlimited groupBy_no_fallback '
+    'groupBy_fallback noSets_methods noSets_function_first noSets_off').split()] + ['Yaql.Props.C13Persist.' + n for n in (
+        'operand_unchanged observed_operand_is_pipeline_result observed_update_is_unobserved_update '
+        'letTwice_order_irrelevant letPair_parts letTwice_parts letChain_parts finaliseParts_last mapM_rows '
+        'selPair_rows').split()] + srcobl.theorems('C13')
 TRUSTED = ["CPython's sorted() is a stable sort (licensed by stable_sort_unique); Python ==/hash on the generated values "
            "is what Value.pyEq / canon model; iteration order of an input set is read from CPython",
-           'harness/seqref.py (plain-Python transcription of the documented meaning, second opinion for every case)']
+           'harness/seqref.py (plain-Python transcription of the documented meaning, second opinion for every case)',
+           'the engine options / create_context flags a member has are what the harness passed when it made it (Opts record '
+           'sent to the model and the reference)']
 ASSUMPTIONS = ['elements are null/bool/int/float/str, nested lists, dicts; floats are finite, and arithmetic on them is predicted '
                'only where the exact result is a double (IEEE arithmetic is correctly rounded); sets and one-shot iterators '
                'in the input only at top level',
@@ -55,26 +71,185 @@ ASSUMPTIONS = ['elements are null/bool/int/float/str, nested lists, dicts; float
                'a generator returned by a lambda is followed through operations that hand elements on once without hashing, '
                'comparing or inspecting them (Op.linear) and into the finaliser; hashing / comparing / consuming it twice, '
                'and a generator that would raise when it is consumed after the lambda returned, are out of domain for the '
-               'Lean model (the plain-Python reference still decides the oracle there)']
+               'Lean model (the plain-Python reference still decides the oracle there)',
+               'option-dependent behaviour INSIDE lambdas (collection methods / + on dictionaries under yaql.iterableDicts or on '
+               'nested collections under a firing yaql.limitIterators, len of a set element under no_sets), a second consumer '
+               'of `$` and generateMany under a limit, unconverted documents with a dictionary below the top level: out of '
+               'domain for the Lean model (reference decides)',
+               'observing programs: the operand is bound once and read 2-3 times; a one-shot iterator or a collection holding '
+               'generators as operand is out of domain']
 
 OPTIONS = {'yaql.convertSetsToLists': True, 'yaql.limitIterators': 10000, 'yaql.memoryQuota': 10000000}
+Opts = seqref.Opts
+
+
+# ------------------------------------------------------------------ engine families
+#
+# A statement is evaluated under the options of the engine it was asked from.  A FAMILY is a base engine
+# (`YaqlFactory().create(options)`) together with the engines derived from it - `engine.copy(delta)` kept alive,
+# `engine.copy(delta)` made for one use, `engine(text, options=delta)` - whose options differ from the base in what the
+# collection functions and the finaliser look at.  Every case sends the SAME text through two or three members of one
+# family, in an order drawn with the case; each result is compared, type-strictly, with the reference and the model
+# under THAT member's options.
+
+def yaql_options(o):
+    return {'yaql.iterableDicts': o.id, 'yaql.convertTuplesToLists': o.tl, 'yaql.convertSetsToLists': o.sl,
+            'yaql.convertInputData': o.ci, 'yaql.limitIterators': 10000 if o.lim is None else o.lim,
+            'yaql.memoryQuota': 10000000, 'yaql.convertOutputData': o.co}
+
+
+_OPT_NAME = {'id': 'yaql.iterableDicts', 'tl': 'yaql.convertTuplesToLists', 'sl': 'yaql.convertSetsToLists',
+             'ci': 'yaql.convertInputData', 'lim': 'yaql.limitIterators', 'co': 'yaql.convertOutputData'}
+
+# (options of the base engine, the deltas of the derived members)
+FAMILY_DEFS = [
+    (dict(), [dict(tl=False), dict(id=True), dict(sl=False), dict(ci=False), dict(id=True, tl=False, sl=False),
+              dict(ci=False, tl=False), dict(ci=False, id=True, sl=False), dict(lim=3), dict(lim=5, tl=False),
+              dict(co=False), dict(co=False, ci=False), dict(co=False, lim=4)]),
+    (dict(id=True, tl=False, sl=False), [dict(id=False), dict(tl=True), dict(sl=True), dict(id=False, tl=True, sl=True),
+                                         dict(ci=False), dict(ci=False, tl=True, id=False), dict(lim=4), dict(co=False), dict(co=False, id=False, ci=False)]),
+]
+HOWS = ['copy', 'copy', 'fresh', 'percall']
+
+
+def member_opts(fi, mi):
+    base, deltas = FAMILY_DEFS[fi]
+    d = dict(base)
+    if mi:
+        d.update(deltas[mi - 1])
+    return Opts(**d)
+
+
+def member_delta(fi, mi):
+    return {_OPT_NAME[k]: v for k, v in FAMILY_DEFS[fi][1][mi - 1].items()}
+
+
+class Family:
+    def __init__(self, fi):
+        import yaql
+        self.fi = fi
+        self.base = yaql.YaqlFactory().create(options=yaql_options(member_opts(fi, 0)))
+        self.copies = {}
+
+    def engine(self, mi, how):
+        if mi == 0:
+            return self.base
+        if how == 'fresh':
+            return self.base.copy(member_delta(self.fi, mi))
+        if mi not in self.copies:
+            self.copies[mi] = self.base.copy(member_delta(self.fi, mi))
+        return self.copies[mi]
+
+
+_FAMILIES = {}
+MEMBER_HIST = {}
+
+
+def family(fi):
+    if fi not in _FAMILIES:
+        _FAMILIES[fi] = Family(fi)
+    return _FAMILIES[fi]
+
+
+# ------------------------------------------------------------------ contexts and the history of create_context() calls
+#
+# The standard library a statement runs against is registered by `yaql.create_context(**flags)`; two of the flags change
+# what C13's functions mean (`group_by_agg_fallback`: groupBy retries a failing aggregator in the pre-1.1.1 style;
+# `no_sets`: no set functions).  A context made with given flags must behave as documented for THOSE flags whatever other
+# contexts the process has made before: every job runs in a fresh process and begins by creating the contexts of all
+# recipes - and decoys with every other keyword of create_context - in an order drawn with the job; a case picks a recipe
+# and uses the context made then, or (now and then) one made on the spot, after all that history.
+
+CONTEXT_RECIPES = [dict(), dict(), dict(group_by_agg_fallback=False), dict(group_by_agg_fallback=False), dict(no_sets=True),
+                   dict(delegates=True), dict(group_by_agg_fallback=False, no_sets=True),
+                   dict(group_by_agg_fallback=False, delegates=True), dict(own_root=True),
+                   dict(own_root=True, group_by_agg_fallback=False)]
+N_DECOYS = 6
+_CONTEXTS = {}
+HISTORY = []            # the order in which this process called create_context: recipe numbers, decoys as -1-k
+CONTEXT_HIST = {}
+
+
+def make_context(ri):
+    import yaql
+    from yaql.language import contexts, conventions
+    if ri >= 0:
+        kw = dict(CONTEXT_RECIPES[ri])
+        if kw.pop('own_root', False):
+            kw['context'] = contexts.Context(convention=conventions.CamelCaseConvention())   # a root supplied by the host
+        return yaql.create_context(**kw)
+    k = -1 - ri
+    decoys = [dict(convention=conventions.PythonConvention()), dict(data=[1, {'a': 2}]), dict(strings=False, regex=False),
+              dict(datetime=False, yaqlized=False, math=False), dict(convention=conventions.PythonConvention(), no_sets=True,
+                                                                       group_by_agg_fallback=False),
+              dict(delegates=True, data={'x': 1}, branching=False)]
+    return yaql.create_context(**decoys[k % len(decoys)])
+
+
+def setup_history(rng=None, order=None):
+    """create the contexts of all recipes and the decoys, in a drawn (or replayed) order"""
+    if HISTORY:
+        return
+    if order is None:
+        order = list(range(len(CONTEXT_RECIPES))) + [-1 - k for k in range(N_DECOYS)]
+        rng.shuffle(order)
+    for ri in order:
+        c = make_context(ri)
+        HISTORY.append(ri)
+        if ri >= 0:
+            _CONTEXTS[ri] = c
+
+
+def root_for(ctx):
+    """the root context of a case: ctx = (recipe, fresh)"""
+    ri, fresh = ctx
+    if not HISTORY:
+        setup_history(order=list(range(len(CONTEXT_RECIPES))))
+    CONTEXT_HIST[(ri, fresh)] = CONTEXT_HIST.get((ri, fresh), 0) + 1
+    if fresh or ri not in _CONTEXTS:
+        HISTORY.append(ri)
+        return make_context(ri)
+    return _CONTEXTS[ri]
+
+
+def case_opts(m, ctx=None):
+    """the options of the member's engine and the flags of the context's recipe"""
+    o = member_opts(m[0], m[1])
+    r = CONTEXT_RECIPES[ctx[0]] if ctx else {}
+    o.af, o.ns = r.get('group_by_agg_fallback', True), r.get('no_sets', False)
+    return o
+
+
+def show_ctx(ctx):
+    if not ctx:
+        return 'create_context()'
+    r = dict(CONTEXT_RECIPES[ctx[0]])
+    own = r.pop('own_root', False)
+    return 'create_context(%s%s)%s' % ('context=<own root>, ' if own and r else 'context=<own root>' if own else '',
+                                       ', '.join('%s=%r' % kv for kv in sorted(r.items())),
+                                       ' made just now' if ctx[1] else '')
+
+
+def pick_members(rng):
+    """[(family, member, how)]: two or three members of one family with different options, in the order of use"""
+    fi = rng.randrange(len(FAMILY_DEFS))
+    n = len(FAMILY_DEFS[fi][1])
+    k = rng.choice([2, 2, 2, 3])
+    idx = rng.sample(range(n + 1), k)
+    if 0 not in idx and rng.random() < 0.5:
+        idx[rng.randrange(k)] = 0
+    return [(fi, mi, 'base' if mi == 0 else rng.choice(HOWS)) for mi in idx]
+
+
+def show_member(m):
+    fi, mi, how = m
+    if mi == 0:
+        return 'base engine %r' % (member_opts(fi, 0),)
+    return '%s of the base engine with %r' % ({'copy': 'engine.copy (kept)', 'fresh': 'engine.copy', 'percall':
+                                               'engine(text, options)'}[how], member_delta(fi, mi))
 
 
 # ------------------------------------------------------------------ the three evaluators
-
-_ENGINE = None
-_ROOT = None
-_PARSED = {}
-
-
-def engine():
-    global _ENGINE, _ROOT
-    if _ENGINE is None:
-        import yaql
-        _ENGINE = yaql.YaqlFactory().create(options=OPTIONS)
-        _ROOT = yaql.create_context()
-    return _ENGINE, _ROOT
-
 
 class Timeout(BaseException):
     pass
@@ -84,55 +259,131 @@ def _alarm(signum, frame):
     raise Timeout()
 
 
-def to_input(v):
+def to_input(v, top=True):
     """run-time form -> what a host program would pass as data"""
     if isinstance(v, seqgen.Iter):
-        return iter([to_input(x) for x in v.items])
+        return iter([to_input(x, False) for x in v.items])
     if isinstance(v, tuple):
         # a host sequence is a list or a tuple (json.loads gives lists, database rows and host code often tuples), and
         # either may hold mutable containers; which one is chosen from the content, so a case replays identically
-        items = [to_input(x) for x in v]
+        items = [to_input(x, False) for x in v]
         return tuple(items) if zlib.crc32(repr(v).encode('utf8', 'replace')) % 3 == 0 else items
     if isinstance(v, dict):
-        return {k: to_input(x) for k, x in v.items()}
+        return {k: to_input(x, False) for k, x in v.items()}
     if isinstance(v, frozenset):
         return set(v)
     return v
 
 
-def prepare(value):
-    """(data for yaql, data for the reference, JSON for the model)"""
+class RawSet(list):
+    """a set-like raw result (frozenset, keys / items view) with its members normalised"""
+
+
+class RawDict(list):
+    """a raw dictionary result as the list of its (key, value) pairs"""
+
+
+class RawIter(list):
+    """what came out of a lazy raw result when the host consumed it"""
+
+
+def norm_raw(r, key=False):
+    """a result handed out with yaql.convertOutputData off, consumed the way a host would: lazy things are iterated
+    (an exception they raise propagates), container types are kept"""
+    import collections.abc as abc
+    if isinstance(r, (str, bytes)) or r is None or isinstance(r, (bool, int, float)):
+        return r
+    if isinstance(r, tuple):
+        return tuple(norm_raw(x, key) for x in r)
+    if isinstance(r, list):
+        return [norm_raw(x) for x in r]
+    if isinstance(r, abc.Mapping):
+        return RawDict((norm_raw(k), norm_raw(v)) for k, v in r.items())         # (pairs: the harness hashes nothing)
+    if isinstance(r, abc.Set):
+        return RawSet(norm_raw(x) for x in r)
+    if isinstance(r, abc.Iterable):
+        return RawIter(norm_raw(x) for x in r)
+    return r
+
+
+class HostSet(frozenset):
+    """a set that iterates in a given order (that of the host's set object)"""
+    def __new__(cls, order):
+        self = super().__new__(cls, order)
+        self.order = list(order)
+        return self
+
+    def __iter__(self):
+        return iter(self.order)
+
+
+def prepare(value, opts=None):
+    """(data for yaql, data for the reference as `$` is bound to it, JSON of the HOST data for the model)"""
+    opts = opts or Opts()
+    bind = seqref.convert_input if opts.ci else (lambda x: x)
     if isinstance(value, frozenset):
-        host = set(value)
-        seen = frozenset(x for x in host)       # built as convert_input_data builds it
-        return host, seen, {'se': [values.enc(x) for x in seen]}
+        # (an engine that does not convert its input gets a frozenset: a mutable set is not hashable, `set($)` raises)
+        host = set(value) if opts.ci else frozenset(value)
+        order = list(frozenset(x for x in host)) if opts.ci else list(host)     # built as convert_input_data builds it
+        return host, HostSet(order), {'se': [values.enc(x) for x in order]}
     if isinstance(value, seqgen.Iter):
-        return to_input(value), iter(value.items), {'it': [values.enc(x) for x in value.items]}
-    return to_input(value), value, values.enc(value)
+        items = [to_input(x, False) for x in value.items]
+        return iter(items), iter([bind(to_input(x, False)) for x in value.items]), {'it': [values.enc(x) for x in items]}
+    return to_input(value), bind(to_input(value)), values.enc(to_input(value))
 
 
 def classify(e):
     return type(e).__name__
 
 
-def run_real_once(text, host_data, timeout=5):
-    eng, root = engine()
+def same_host(a, b):
+    """the host's document before and after the evaluation"""
+    if type(a) is not type(b):
+        return False
+    if isinstance(a, (list, tuple)):
+        return len(a) == len(b) and all(same_host(x, y) for x, y in zip(a, b))
+    if isinstance(a, dict):
+        return list(a.keys()) == list(b.keys()) and all(same_host(a[k], b[k]) for k in a)
+    return a == b
+
+
+def run_real_once(text, host_data, member, timeout=5, ctx=None):
+    """-> ('ok', value) | ('err', class) ; the third component: the host's document was changed by the evaluation"""
+    import copy
+    fi, mi, how = member
+    fam = family(fi)
+    root = root_for(ctx or (0, False))
+    MEMBER_HIST[how] = MEMBER_HIST.get(how, 0) + 1
+    before = None if hasattr(host_data, '__next__') else copy.deepcopy(host_data)
+
+    def changed():
+        return before is not None and not same_host(before, host_data)
     try:
-        eng(text)           # parsing errors surface outside the watchdog, as before
+        eng = fam.engine(mi, how)
+        if how != 'percall':
+            eng(text)       # parsing errors surface outside the watchdog, as before
         signal.signal(signal.SIGALRM, _alarm)
         signal.setitimer(signal.ITIMER_REAL, timeout)
         try:
-            # one of the equivalent host paths (plain / reused statement / engine.copy / per-call options / document bound
-            # by the host), chosen by the text: see harness/paths.py
-            return ('ok', paths.evaluate(eng, root, text, host_data))
+            if how == 'percall':
+                r = fam.base(text, options=member_delta(fi, mi)).evaluate(data=host_data, context=root.create_child_context())
+            elif how == 'fresh':
+                r = eng(text).evaluate(data=host_data, context=root.create_child_context())
+            else:
+                # one of the equivalent host paths (plain / reused statement / engine.copy / per-call options / document
+                # bound by the host) with this member's engine, chosen by the text: see harness/paths.py
+                r = paths.evaluate(eng, root, text, host_data)
+            if not member_opts(fi, mi).co:
+                r = norm_raw(r)         # (consumed inside the watchdog)
+            return ('ok', r, changed())
         finally:
             signal.setitimer(signal.ITIMER_REAL, 0)
     except Timeout:
-        return ('err', 'Timeout')
+        return ('err', 'Timeout', False)
     except RecursionError:
-        return ('err', 'RecursionError')
+        return ('err', 'RecursionError', changed())
     except Exception as e:
-        return ('err', classify(e))
+        return ('err', classify(e), changed())
 
 
 def size_of(f):
@@ -143,17 +394,20 @@ def size_of(f):
     return 1
 
 
-def run_real(text, make_host, timeout=5):
+def run_real(text, make_host, member, timeout=5, ctx=None):
     """a timeout is only believed when it repeats with a much longer allowance (loaded machine)"""
-    r = run_real_once(text, make_host(), timeout)
-    if r == ('err', 'Timeout'):
-        r = run_real_once(text, make_host(), 8 * timeout)
+    r = run_real_once(text, make_host(), member, timeout, ctx)
+    if r[:2] == ('err', 'Timeout'):
+        r = run_real_once(text, make_host(), member, 8 * timeout, ctx)
     return r
 
 
-def run_ref(ref_data, ops, binder=None):
+def run_ref(ref_data, ops, binder=None, obs=None, opts=None):
     try:
-        r = seqref.run_ref(ref_data, ops, binder)
+        if obs is not None:
+            r = seqref.run_obs(ref_data, ops, binder, obs, opts)
+        else:
+            r = seqref.run_ref(ref_data, ops, binder, opts)
         if size_of(r) > 3000:
             return ('big', None)       # beyond the engine's collection / memory limits (C08's subject)
         return ('ok', r)
@@ -165,10 +419,12 @@ def run_ref(ref_data, ops, binder=None):
         return ('err', classify(e))
 
 
-def case_json(value, ops, binder=None):
-    _, _, dj = prepare(value)
+def case_json(value, ops, binder=None, obs=None, opts=None):
+    opts = opts or Opts()
+    _, _, dj = prepare(value, opts)
     return {'data': dj, 'ops': [seqref.op_json(a, values.enc) for a in ops],
-            'let': None if binder is None else seqref.op_json(binder, values.enc)}
+            'let': None if binder is None else seqref.op_json(binder, values.enc),
+            'obs': None if obs is None else seqref.obs_json(obs, values.enc), 'opts': opts.json()}
 
 
 # ------------------------------------------------------------------ comparisons
@@ -177,58 +433,64 @@ def same_scalar(a, b):
     return type(a) is type(b) and a == b
 
 
-def match_fin(f, r):
-    """reference result (finalised, sets marked) against the real result"""
-    if isinstance(f, tuple) and len(f) == 2 and f[0] == 'set':
-        if not isinstance(r, list) or len(r) != len(f[1]):
+def match_fin(f, r, opts=None):
+    """reference result (finalised, sets marked FSet) against the real result.  With `opts` the comparison is type-strict
+    (a tuple is a tuple, a list a list, a set a set or - with convertSetsToLists - a list); without, every sequence and
+    set of the reference stands for a list (C14)."""
+    strict = opts is not None
+    raw = strict and not opts.co
+    if isinstance(f, seqref.FDict):
+        if type(r) is not RawDict or len(f) != len(r):
             return False
         left = list(r)
-        for x in f[1]:
-            for i, y in enumerate(left):
-                if match_fin(x, y):
+        for k, v in f:
+            for i, (rk, rv) in enumerate(left):
+                if match_fin(k, rk, opts) and match_fin(v, rv, opts):
                     del left[i]
                     break
             else:
                 return False
         return True
-    if isinstance(f, list):
-        return isinstance(r, list) and len(f) == len(r) and all(match_fin(x, y) for x, y in zip(f, r))
+    if isinstance(f, seqref.FIter):
+        if raw:
+            return type(r) is RawIter and len(f) == len(r) and all(match_fin(x, y, opts) for x, y in zip(f, r))
+        return type(r) is list and len(f) == len(r) and all(match_fin(x, y, opts) for x, y in zip(f, r))
+    if isinstance(f, seqref.FSet) or isinstance(f, tuple) and len(f) == 2 and f[0] == 'set':
+        members = f if isinstance(f, seqref.FSet) else f[1]
+        if raw:
+            if type(r) is not RawSet or len(r) != len(members):
+                return False
+        elif strict and not opts.sl:
+            if type(r) is not set or len(r) != len(members):
+                return False
+        elif type(r) is not list or len(r) != len(members):
+            return False
+        left = list(r)
+        for x in members:
+            for i, y in enumerate(left):
+                if match_fin(x, y, opts):
+                    del left[i]
+                    break
+            else:
+                return False
+        return True
+    if isinstance(f, (list, tuple)):
+        want = type(f) if strict else list
+        return type(r) is want and len(f) == len(r) and all(match_fin(x, y, opts) for x, y in zip(f, r))
     if isinstance(f, dict):
         if not isinstance(r, dict) or len(f) != len(r):
             return False
         for k, v in f.items():
-            hit = [rk for rk in r if same_scalar(rk, k)]
-            if len(hit) != 1 or not match_fin(v, r[hit[0]]):
+            hit = [rk for rk in r if (match_fin(k, rk, opts) if isinstance(k, (tuple, dict)) else same_scalar(rk, k))]
+            if len(hit) != 1 or not match_fin(v, r[hit[0]], opts):
                 return False
         return True
     return same_scalar(f, r)
 
 
-def enc_fin(f):
-    if isinstance(f, tuple) and len(f) == 2 and f[0] == 'set':
-        return {'se': [enc_fin(x) for x in f[1]]}
-    if isinstance(f, list):
-        return {'li': [enc_fin(x) for x in f]}
-    if isinstance(f, dict):
-        return {'d': [[enc_fin(k), enc_fin(v)] for k, v in f.items()]}
-    return values.enc(f)
-
-
-def norm_model(j):
-    """model value -> the shape finalisation gives (tuples and iterators become lists)"""
-    if isinstance(j, dict):
-        (k, x), = j.items()
-        if k in ('tu', 'li', 'it'):
-            return {'li': [norm_model(t) for t in x]}
-        if k == 'se':
-            return {'se': [norm_model(t) for t in x]}
-        if k == 'd':
-            return {'d': [[norm_model(a), norm_model(b)] for a, b in x]}
-    return j
-
-
-def dec_model(j):
-    """model value -> finalised python shape with sets marked (to match against the real result)"""
+def dec_model(j, strict=False, as_key=False, raw=False):
+    """model value -> finalised python shape with sets marked (to match against the real result); strict: tuples stay
+    tuples"""
     if j is None or isinstance(j, bool):
         return j
     (k, x), = j.items()
@@ -238,26 +500,32 @@ def dec_model(j):
         return values.bits2f(x)
     if k == 's':
         return ''.join(chr(c) for c in x)
+    if k == 'tu' and strict:
+        return tuple(dec_model(t, strict, as_key, raw) for t in x)
+    if k == 'it' and strict:
+        return seqref.FIter(dec_model(t, strict, False, raw) for t in x)
     if k in ('tu', 'li', 'it'):
-        return [dec_model(t) for t in x]
+        return [dec_model(t, strict, False, raw) for t in x]
     if k == 'se':
-        return ('set', [dec_model(t) for t in x])
+        return seqref.FSet(dec_model(t, strict, False, raw) for t in x)
     if k == 'd':
-        return {dec_model(a): dec_model(b) for a, b in x}
+        if raw:
+            return seqref.FDict((dec_model(a, strict, False, True), dec_model(b, strict, False, True)) for a, b in x)
+        return (FD if as_key else dict)((dec_model(a, strict, True), dec_model(b, strict, as_key)) for a, b in x)
     raise ValueError(j)
 
 
-def agree_real_ref(real, ref):
+def agree_real_ref(real, ref, opts=None):
     if ref[0] == 'ood':
         return None
     if real[0] != ref[0]:
         return False
     if real[0] == 'err':
         return real[1] == ref[1]
-    return match_fin(ref[1], real[1])
+    return match_fin(ref[1], real[1], opts)
 
 
-def agree_real_model(real, mod):
+def agree_real_model(real, mod, opts=None):
     if mod is None or mod.get('err') == 'OOD':
         return None
     if 'err' in mod:
@@ -265,7 +533,7 @@ def agree_real_model(real, mod):
     if real[0] != 'ok':
         return False
     try:
-        return match_fin(dec_model(mod['ok']), real[1])
+        return match_fin(dec_model(mod['ok'], opts is not None, False, opts is not None and not opts.co), real[1], opts)
     except TypeError:
         return False
 
@@ -280,36 +548,70 @@ def show_model(m):
     if 'err' in m:
         return 'err ' + m['err']
     try:
-        return 'ok %r' % (dec_model(m['ok']),)
+        return 'ok %r' % (dec_model(m['ok'], True),)
     except Exception:
         return 'ok ' + json.dumps(m['ok'])
 
 
 # ------------------------------------------------------------------ one case
 
-def evaluate_case(value, ops, model_reply, binder=None):
-    """-> (failure or None, info) ; failure = (kind, what)"""
-    text = seqref.render(ops, binder)
-    real = run_real(text, lambda: prepare(value)[0])
-    _, refdata, _ = prepare(value)
-    ref = run_ref(refdata, ops, binder)
-    if ref[0] == 'big':
-        return None, dict(text=text, real=real, ref=('ood', None), model=model_reply)
-    a_ref = agree_real_ref(real, ref)
-    a_mod = agree_real_model(real, model_reply)
-    info = dict(text=text, real=real, ref=ref, model=model_reply)
-    if real == ('err', 'Timeout'):
-        return ('oracle', '%s on %r: no result within the watchdog (reference: %s)' % (text, value, show(ref))), info
-    if a_ref is False and a_mod is not True:
-        return ('oracle', '%s on %r: real %s, documented meaning %s (model: %s)' % (
-            text, value, show(real), show(ref), show_model(model_reply))), info
-    if a_ref is False:
-        return ('mismatch', '%s on %r: the reference transcription gives %s but real and model agree on %s' % (
-            text, value, show(ref), show(real))), info
-    if a_mod is False:
-        return ('mismatch', '%s on %r: real %s, model %s (reference %s)' % (
-            text, value, show(real), show_model(model_reply), show(ref))), info
-    return None, info
+def case_text(ops, binder=None, obs=None):
+    return seqref.render_obs(ops, binder, obs) if obs is not None else seqref.render(ops, binder)
+
+
+def evaluate_case(value, ops, model_replies, binder=None, obs=None, members=None, ctx=None):
+    """the same text through the members, in their order; `model_replies`: one per member.
+    -> (failure or None, info) ; failure = (kind, what)"""
+    members = members or [(0, 0, 'base')]
+    text = case_text(ops, binder, obs)
+    info = dict(text=text, real=None, ref=None, model=None, runs=[])
+    failure = None
+    handed_out = []                 # (member, result, snapshot): a result belongs to the host once it is handed out
+    for i, (m, mr) in enumerate(zip(members, model_replies)):
+        opts = case_opts(m, ctx)
+        real3 = run_real(text, lambda: prepare(value, opts)[0], m, ctx=ctx)
+        real, mutated = real3[:2], real3[2]
+        if real[0] == 'ok':
+            try:
+                handed_out.append((m, real[1], copy.deepcopy(real[1])))
+            except Exception:       # noqa
+                pass
+        _, refdata, _ = prepare(value, opts)
+        ref = run_ref(refdata, ops, binder, obs, opts)
+        if ref[0] == 'big':
+            ref = ('ood', None)
+            mr = None
+        a_ref = agree_real_ref(real, ref, opts)
+        a_mod = agree_real_model(real, mr, opts)
+        info['runs'].append(dict(member=m, real=real, ref=ref, model=mr))
+        if i == 0 or info['real'] is None:
+            info.update(real=real, ref=ref, model=mr)
+        if failure is not None:
+            continue
+        via = 'through %s (use %d of %d of this text in the family), context %s (%d-th create_context call of the process)' % (
+            show_member(m), i + 1, len(members), show_ctx(ctx), len(HISTORY))
+        if mutated:
+            failure = ('oracle', '%s on %r %s: the evaluation changed the host\'s document' % (text, value, via))
+        elif real == ('err', 'Timeout'):
+            failure = ('oracle', '%s on %r %s: no result within the watchdog (reference: %s)' % (text, value, via, show(ref)))
+        elif a_ref is False and a_mod is not True:
+            failure = ('oracle', '%s on %r %s: real %s, documented meaning under these options %s (model: %s)' % (
+                text, value, via, show(real), show(ref), show_model(mr)))
+        elif a_ref is False:
+            failure = ('mismatch', '%s on %r %s: the reference transcription gives %s but real and model agree on %s' % (
+                text, value, via, show(ref), show(real)))
+        elif a_mod is False:
+            failure = ('mismatch', '%s on %r %s: real %s, model %s (reference %s)' % (
+                text, value, via, show(real), show_model(mr), show(ref)))
+        if failure is not None:
+            info.update(real=real, ref=ref, model=mr)
+    if failure is None:
+        for m, r, snap in handed_out[:-1]:
+            if not same_host(r, snap):
+                failure = ('oracle', '%s on %r: the result handed out through %s (%r) was changed by a later evaluation of the same '
+                           'text in the family (now %r)' % (text, value, show_member(m), snap, r))
+                break
+    return failure, info
 
 
 def ask_model(drv, cases):
@@ -403,28 +705,44 @@ def lam2_from_json(j):
     return [j[0]]
 
 
-def replay_of(value, ops, binder=None):
+def replay_of(value, ops, binder=None, obs=None, members=None, ctx=None):
     return {'data': value_to_json(value), 'ops': [seqref.op_json(a, values.enc) for a in ops],
-            'let': None if binder is None else seqref.op_json(binder, values.enc)}
+            'let': None if binder is None else seqref.op_json(binder, values.enc),
+            'obs': None if obs is None else seqref.obs_json(obs, values.enc),
+            'members': [list(m) for m in (members or [(0, 0, 'base')])],
+            'ctx': list(ctx) if ctx else None, 'history': list(HISTORY)}
 
 
-def fails(value, ops, drv, kind, binder=None):
+def obs_from_json(j):
+    if not j:
+        return None
+    o = {'shape': j['shape'], 'u': op_from_json(j['u'])}
+    if j.get('u2'):
+        o['u2'] = op_from_json(j['u2'])
+    return o
+
+
+def model_replies(drv, value, ops, binder, obs, members, ctx=None):
+    return ask_model(drv, [case_json(value, ops, binder, obs, case_opts(m, ctx)) for m in members])
+
+
+def fails(value, ops, drv, kind, binder=None, obs=None, members=None, ctx=None):
+    members = members or [(0, 0, 'base')]
     try:
-        mr = ask_model(drv, [case_json(value, ops, binder)])[0]
-        f, _ = evaluate_case(value, ops, mr, binder)
+        f, _ = evaluate_case(value, ops, model_replies(drv, value, ops, binder, obs, members, ctx), binder, obs, members, ctx)
     except Exception:
         return None
     return f if f and f[0] == kind else None
 
 
-def shrink(value, ops, drv, kind, binder=None):
+def shrink(value, ops, drv, kind, binder=None, obs=None, members=None, ctx=None):
     """fewer stages, then fewer elements, while the same kind of failure persists"""
     changed = True
     while changed:
         changed = False
         for i in range(len(ops) - 1, -1, -1):
             cand = ops[:i] + ops[i + 1:]
-            if cand and fails(value, cand, drv, kind, binder):
+            if (cand or obs is not None) and fails(value, cand, drv, kind, binder, obs, members, ctx):
                 ops, changed = cand, True
                 break
         items = None
@@ -436,7 +754,7 @@ def shrink(value, ops, drv, kind, binder=None):
             for i in range(len(items)):
                 cand = items[:i] + items[i + 1:]
                 cv = seqgen.Iter(cand) if isinstance(value, seqgen.Iter) else tuple(cand)
-                if fails(cv, ops, drv, kind, binder):
+                if fails(cv, ops, drv, kind, binder, obs, members, ctx):
                     value, changed = cv, True
                     break
             else:
@@ -448,7 +766,7 @@ def shrink(value, ops, drv, kind, binder=None):
                     for j in range(len(x)):
                         cand = items[:i] + [x[:j] + x[j + 1:]] + items[i + 1:]
                         cv = seqgen.Iter(cand) if isinstance(value, seqgen.Iter) else tuple(cand)
-                        if fails(cv, ops, drv, kind, binder):
+                        if fails(cv, ops, drv, kind, binder, obs, members, ctx):
                             value, changed, hit = cv, True, True
                             break
                     if hit:
@@ -458,8 +776,10 @@ def shrink(value, ops, drv, kind, binder=None):
 
 # ------------------------------------------------------------------ per-function work (runs in a worker process)
 
-def failure_key(ops, info):
+def failure_key(ops, info, obs=None):
     names = '.'.join(a['op'] for a in ops)
+    if obs is not None:
+        names = '%s(%s)/%s' % (obs['shape'], '.'.join(o['op'] for o in (obs['u'], obs.get('u2')) if o), names)
     return names[:60]
 
 
@@ -477,27 +797,74 @@ LAM_TAGS = frozenset('arg const add mul mod gt eq member index not pair len firs
                      'str half fst snd plus max on1 on2 plusOn'.split())
 
 
+def gen_case(rng, fname):
+    """(kind, profile, value, ops, binder, obs, members)"""
+    members = pick_members(rng)
+    with_dicts = any(member_opts(m[0], m[1]).id for m in members)
+    if fname.startswith('obs:'):
+        kind, prof, value, ops, binder, obs = seqgen.observe(rng, fname[4:])
+    else:
+        kind, prof, value, ops, binder = seqgen.pipeline(rng, fname, dict_bias=0.3 if with_dicts else 0.0)
+        obs = None
+    # the context: one of the recipes (those whose flags the function under test depends on more often), made at the
+    # start of the job or - 15 % - just now
+    uses_flag = fname == 'groupBy' or any(a['op'] == 'groupBy' for a in ops)
+    pool = [2, 3, 6, 7, 9, 0] if uses_flag and rng.random() < 0.7 else list(range(len(CONTEXT_RECIPES)))
+    ctx = (rng.choice(pool), rng.random() < 0.15)
+    return kind, prof, value, ops, binder, obs, members, ctx
+
+
 def work(args):
-    fname, n_cases, seed, use_model = args
-    rng = common.make_rng(seed, 'C13/' + fname)
+    fname, n_cases, seed, use_model = args[:4]
+    rnd = args[4] if len(args) > 4 else 0          # (thorough: further rounds of the quick size, each with its own stream)
+    salt = fname if rnd == 0 else '%s/round%d' % (fname, rnd)
+    rng = common.make_rng(seed, 'C13/' + salt)
+    setup_history(common.make_rng(seed, 'C13/history/' + salt))
     drv = common.Driver() if use_model else None
     out = dict(fname=fname, cases=[], failures=[], hist={}, n=0, ood=0, errs={}, kinds={}, sizes={}, stages={},
-               profiles={}, lams={}, lazy_lambda=[0, 0, 0], dup_nested=0, twins=0)
+               profiles={}, lams={}, lazy_lambda=[0, 0, 0], dup_nested=0, twins=0, runs=0, by_opts={}, shapes={},
+               dict_as_collection=0, raw_input=0, strict_shapes={}, contexts={}, contexts_fresh=0)
     try:
-        batch = []
-        for _ in range(n_cases):
-            kind, prof, value, ops, binder = seqgen.pipeline(rng, fname)
-            batch.append((kind, prof, value, ops, binder))
-        replies = ask_model(drv, [case_json(v, ops, b) for _, _, v, ops, b in batch])
-        for (kind, prof, value, ops, binder), mr in zip(batch, replies):
-            f, info = evaluate_case(value, ops, mr, binder)
+        batch = [gen_case(rng, fname) for _ in range(n_cases)]
+        requests, index = [], []
+        for kind, prof, value, ops, binder, obs, members, ctx in batch:
+            index.append((len(requests), len(members)))
+            requests += [case_json(value, ops, binder, obs, case_opts(m, ctx)) for m in members]
+        replies = ask_model(drv, requests)
+        info = real = None
+        for (kind, prof, value, ops, binder, obs, members, ctx), (at, k) in zip(batch, index):
+            mrs = replies[at:at + k]
+            f, info = evaluate_case(value, ops, mrs, binder, obs, members, ctx)
+            r0 = CONTEXT_RECIPES[ctx[0]]
+            ctag = ','.join(sorted(k2 for k2 in r0)) or 'default'
+            out['contexts'][ctag] = out['contexts'].get(ctag, 0) + 1
+            out['contexts_fresh'] += 1 if ctx[1] else 0
             out['n'] += 1
             real, ref = info['real'], info['ref']
-            ood = ref[0] == 'ood' or (mr or {}).get('err') == 'OOD'
+            ood = all(r['ref'][0] == 'ood' or (r['model'] or {}).get('err') == 'OOD' for r in info['runs'])
             if ood:
                 out['ood'] += 1
-            if real[0] == 'err':
-                out['errs'][real[1]] = out['errs'].get(real[1], 0) + 1
+            for r in info['runs']:
+                out['runs'] += 1
+                o = member_opts(r['member'][0], r['member'][1])
+                tag = ','.join(n for n, on in (('iterableDicts', o.id), ('tuples', not o.tl), ('sets', not o.sl),
+                                                ('rawInput', not o.ci), ('limit', o.lim is not None),
+                                                ('rawOutput', not o.co)) if on) or 'default'
+                bo = out['by_opts'].setdefault(tag, [0, 0, 0])          # runs, out of domain, real exceptions
+                bo[0] += 1
+                bo[1] += 1 if (r['ref'][0] == 'ood' or (r['model'] or {}).get('err') == 'OOD') else 0
+                bo[2] += 1 if r['real'][0] == 'err' else 0
+                if r['real'][0] == 'err':
+                    out['errs'][r['real'][1]] = out['errs'].get(r['real'][1], 0) + 1
+                if o.id and kind == 'dict' and r['real'][0] == 'ok':
+                    out['dict_as_collection'] += 1
+                if not o.ci:
+                    out['raw_input'] += 1
+                if r['real'][0] == 'ok':
+                    sh = type(r['real'][1]).__name__
+                    out['strict_shapes'][sh] = out['strict_shapes'].get(sh, 0) + 1
+            if obs is not None:
+                out['shapes'][obs['shape']] = out['shapes'].get(obs['shape'], 0) + 1
             out['kinds'][kind] = out['kinds'].get(kind, 0) + 1
             n_el = len(seqgen.Ctx(kind, prof, value).elems)
             out['sizes'][n_el] = out['sizes'].get(n_el, 0) + 1
@@ -523,20 +890,23 @@ def work(args):
             flat = [y for x in els for y in (x if isinstance(x, tuple) else (x,)) if isinstance(y, (int, float))]
             if any(a == b and type(a) is not type(b) for i, a in enumerate(flat) for b in flat[i + 1:]):
                 out['twins'] += 1                                   # equal scalars of different type side by side
-            nontrivial = real[0] == 'ok' and not ood
-            out['cases'].append((common.digest([info['text'], repr(value)]), nontrivial))
+            nontrivial = any(r['real'][0] == 'ok' and not (r['ref'][0] == 'ood' or (r['model'] or {}).get('err') == 'OOD')
+                             for r in info['runs'])
+            out['cases'].append((common.digest([info['text'], repr(value), [list(m) for m in members], list(ctx)]), nontrivial))
             if f and len(out['failures']) < 3:
-                sv, sops = shrink(value, ops, drv, f[0], binder)
-                g = fails(sv, sops, drv, f[0], binder) or f
-                out['failures'].append((g[0], failure_key(sops, info), g[1], replay_of(sv, sops, binder)))
+                sv, sops = shrink(value, ops, drv, f[0], binder, obs, members, ctx)
+                g = fails(sv, sops, drv, f[0], binder, obs, members, ctx) or f
+                out['failures'].append((g[0], failure_key(sops, info, obs), g[1], replay_of(sv, sops, binder, obs, members, ctx)))
         out['sample'] = dict(text=info['text'], data=repr(value), real=repr(real)[:200]) if n_cases else None
+        out['member_kinds'] = dict(MEMBER_HIST)
+        out['history'] = list(HISTORY[:len(CONTEXT_RECIPES) + N_DECOYS])
     finally:
         if drv:
             drv.close()
     return out
 
 
-FUNCTIONS = list(seqgen.ALL_OPS)
+FUNCTIONS = list(seqgen.ALL_OPS) + ['obs:' + u for u in seqgen.UPDATERS]
 
 
 def generate():
@@ -592,7 +962,14 @@ def run(env, res):
     tier = env['tier']
     use_model = env['driver'] is not None
     _SRC_DRV[0] = env['driver']
-    res.rule = ('per function f: pipelines of <= 4 stages containing f, on tuples / sets / dicts / one-shot iterators / '
+    res.rule = ('every case: one text through 2-3 members of an engine family (options iterableDicts / convertTuplesToLists / '
+                'convertSetsToLists / convertInputData / convertOutputData / limitIterators 3-5 differing from the base) in a '
+                'drawn order, in a context made by create_context with drawn flags (group_by_agg_fallback, no_sets, delegates, '
+                'own root) after a drawn history of other create_context calls in a fresh process, compared type-strictly under '
+                'that member\'s options; per updating function u: observing programs let(x => P) -> [$x.u, $x] / [$x.u1, $x.u2, $x] '
+                '/ let(y => $x.u1) -> [$y.u2, $y, $x] / P.select([$.u, $]) / memorized twice, P ending in every producer of lists / '
+                'dicts / sets or empty (the document, also unconverted); '
+                'per function f: pipelines of <= 4 stages containing f, on tuples / sets / dicts / one-shot iterators / '
                 'scalars of size 0..6 with duplicates, nulls, nesting; element profiles include lists of small lists with '
                 'REPEATED and empty inner lists and 1 / 1.0 / true, 0 / 0.0 / false side by side (top level and nested); '
                 'lambdas from the Lam family, on nested profiles len / first / last / single / sum / str / halving and the '
@@ -609,21 +986,41 @@ def run(env, res):
         value = value_from_json(case['data'])
         ops = [op_from_json(j) for j in case['ops']]
         binder = op_from_json(case['let']) if case.get('let') else None
-        mr = ask_model(env['driver'], [case_json(value, ops, binder)])[0]
-        f, info = evaluate_case(value, ops, mr, binder)
+        obs = obs_from_json(case.get('obs'))
+        members = [tuple(m) for m in case.get('members') or [(0, 0, 'base')]]
+        ctx = tuple(case['ctx']) if case.get('ctx') else None
+        if case.get('history'):
+            setup_history(order=case['history'])        # the create_context calls of the failing process, in their order
+        mrs = model_replies(env['driver'], value, ops, binder, obs, members, ctx)
+        f, info = evaluate_case(value, ops, mrs, binder, obs, members, ctx)
         res.case(common.digest([info['text'], repr(value)]), True, sample=info['text'])
         res.traces += 1
         if f:
-            res.fail(f[0], failure_key(ops, info), f[1], replay_of(value, ops, binder))
+            res.fail(f[0], failure_key(ops, info, obs), f[1], replay_of(value, ops, binder, obs, members, ctx))
         return res
-    n_cases = 300 if tier == 'quick' else 10000
-    jobs = [(f, n_cases, env['seed'], use_model) for f in FUNCTIONS]
-    nproc = min(len(jobs), max(1, (os.cpu_count() or 2) - 1), 8 if tier == 'quick' else 12)
+    # quick: one round of 300 cases per function.  thorough: the same round, then further rounds (each with its own random
+    # stream) while the wall-clock budget lasts - sized by time, not by count, so that it ends in <= ~10 min on any machine
+    n_cases = 300
+    max_rounds = 1 if tier == 'quick' else 40
+    budget = float(os.environ.get('VERIF_THOROUGH_S') or 480)
+    nproc = min(len(FUNCTIONS), max(1, (os.cpu_count() or 2) - 1), int(os.environ.get('VERIF_NPROC') or (8 if tier == 'quick' else 12)))
     t0 = time.time()
-    with multiprocessing.Pool(nproc) as pool:
-        results = pool.map(work, jobs, chunksize=1)
+    results, rounds_run, stopped = [], 0, False
+    for rnd in range(max_rounds):
+        t1 = time.time()
+        jobs = [(f, n_cases, env['seed'], use_model, rnd) for f in FUNCTIONS]
+        with multiprocessing.Pool(nproc, maxtasksperchild=1) as pool:  # (a fresh process per job: its own create_context history)
+            results += pool.map(work, jobs, chunksize=1)
+        rounds_run += 1
+        if any(out['failures'] for out in results):
+            break
+        if rnd + 1 < max_rounds and (time.time() - t0) + 1.15 * (time.time() - t1) > budget:
+            stopped = True
+            break
     per_fn, errs, kinds, sizes, stages, ood = {}, {}, {}, {}, {}, 0
     profiles, lams, lazy_lambda, dup_nested, twins = {}, {}, [0, 0, 0], 0, 0
+    by_opts, shapes, member_kinds, strict_shapes, runs, dict_coll, raw = {}, {}, {}, {}, 0, 0, 0
+    contexts, fresh, first_calls = {}, 0, {}
     for out in results:
         for sig, nt in out['cases']:
             res.case(sig, nt)
@@ -632,16 +1029,28 @@ def run(env, res):
             res.samples.append(out['sample'])
         for kind, key, what, replay in out['failures']:
             res.fail(kind, key, what, replay)
-        per_fn[out['fname']] = dict(cases=out['n'], out_of_domain=out['ood'], errors=sum(out['errs'].values()))
+        pf = per_fn.setdefault(out['fname'], dict(cases=0, out_of_domain=0, errors=0))
+        pf['cases'] += out['n']
+        pf['out_of_domain'] += out['ood']
+        pf['errors'] += sum(out['errs'].values())
         ood += out['ood']
         for src, dst in ((out['errs'], errs), (out['kinds'], kinds), (out['sizes'], sizes), (out['stages'], stages),
-                         (out['lams'], lams)):
+                         (out['lams'], lams), (out['shapes'], shapes), (out.get('member_kinds', {}), member_kinds),
+                         (out['strict_shapes'], strict_shapes), (out['contexts'], contexts)):
             for k, v in src.items():
                 dst[str(k)] = dst.get(str(k), 0) + v
         for k, v in out['profiles'].items():
             profiles[k] = [a + b for a, b in zip(profiles.get(k, [0, 0, 0]), v)]
         lazy_lambda = [a + b for a, b in zip(lazy_lambda, out['lazy_lambda'])]
         dup_nested += out['dup_nested']
+        for k, v in out['by_opts'].items():
+            by_opts[k] = [a + b for a, b in zip(by_opts.get(k, [0, 0, 0]), v)]
+        runs += out['runs']
+        fresh += out['contexts_fresh']
+        h0 = (out.get('history') or [None])[0]
+        first_calls[str(h0)] = first_calls.get(str(h0), 0) + 1
+        dict_coll += out['dict_as_collection']
+        raw += out['raw_input']
         twins += out['twins']
     srcobl.differential(env, res, 'C13', oracle=src_oracle)    # real function vs its translation vs the model
     res.extra['functions'] = len(FUNCTIONS)
@@ -653,7 +1062,18 @@ def run(env, res):
                                   lambda_constructors_cases=lams,
                                   lazy_valued_lambda_cases_ood_errors=lazy_lambda,
                                   cases_with_repeated_inner_lists=dup_nested,
-                                  cases_with_equal_scalars_of_different_type=twins)
+                                  cases_with_equal_scalars_of_different_type=twins,
+                                  evaluations=runs,
+                                  evaluations_by_member_options_runs_ood_errors=by_opts,
+                                  member_kinds=member_kinds,
+                                  observing_program_shapes=shapes,
+                                  dictionaries_iterated_as_collections=dict_coll,
+                                  evaluations_on_unconverted_input=raw,
+                                  top_level_type_of_real_results=strict_shapes,
+                                  cases_by_context_recipe=contexts, cases_with_context_made_on_the_spot=fresh,
+                                  jobs_by_first_create_context_call_of_their_process=first_calls)
+    res.extra['rounds_of_300_cases_per_function'] = rounds_run
+    res.extra['stopped_by_wall_clock_budget_s'] = budget if stopped else None
     res.extra['correspondence_wall_s'] = round(time.time() - t0, 1)
     return res
 
@@ -670,7 +1090,17 @@ LEVEL_TEXT = ('Lean 4 theorems, for collections of EVERY size, about a list-leve
               'silently truncated), equal elements get equal results also when these are lazy sequences.  The model is tied '
               'to the code by running, per function, generated pipelines of <= 4 stages on the real engine, on the compiled '
               'model and on an independent plain-Python transcription of the documented meaning, and comparing finalised '
-              'results / exception classes three ways.')
+              'results / exception classes three ways.  The model takes the record of engine options and create_context flags '
+              'the functions and the finaliser depend on (Opts: iterableDicts, convertTuplesToLists, convertSetsToLists, '
+              'convertInputData, convertOutputData, limitIterators; group_by_agg_fallback, no_sets) - theorems: a dictionary '
+              'is a collection exactly under iterableDicts, the limiter raises exactly on over-long collections after exactly n '
+              'elements, the finaliser hands out no generator and (with convertTuplesToLists) no tuple, converted input holds no '
+              'mutable list and is hashable; every case sends one text through several members of an engine family in a context '
+              'made after a drawn history of create_context calls and compares type-strictly under that member\'s record.  '
+              'Persistent updates: for every update, pipeline, document and option record the last component of an observing '
+              'program let(x => P) -> [$x.u(..), .., $x] is what P alone returns and its first component what P.u(..) returns '
+              '(observed_operand_is_pipeline_result, observed_update_is_unobserved_update); such programs are generated over '
+              'the results of every list / dict / set producer and over the unconverted document.')
 LEVEL_NOTE = ('trusted: Lean kernel; the hand-written model Yaql/Model/Seq.lean + SeqRun.lean (lambdas restricted to the closed '
               'family Lam/Lam2; Python ==/hash modelled by a canonical form; lazy sequences as "items then optional '
               'exception"; doubles by exact integer arithmetic on their bits, predicted only where the exact result is a '
